@@ -72,6 +72,53 @@ Proof.
     + destruct (IH (clog m e s)) as (A & B & C & L). rewrite A, B, C, L. cbn. rewrite <- app_assoc. auto.
 Qed.
 
+(* the loops as the code runs them (a failing module traps the call) = the trap-free loops, unless
+   one of the modules reached fails *)
+Lemma notify_all_f_eq fail ms e : forall s,
+  notify_all_f fail ms e s = if any_fail fail ms then Fail else Ok (notify_all ms e s).
+Proof.
+  induction ms as [|m r IH]; intros s; cbn [notify_all_f notify_all any_fail existsb]; auto.
+  destruct (mem m fail); cbn [orb]; auto; try apply IH.
+Qed.
+Lemma ask_all_f_eq fail deny ms e : forall s,
+  ask_all_f fail deny ms e s = if any_fail fail (asked deny ms) then Fail else Ok (ask_all deny ms e s).
+Proof.
+  induction ms as [|m r IH]; intros s; cbn [ask_all_f ask_all asked]; auto.
+  destruct (mem m fail) eqn:F.
+  - destruct (mem m deny); cbn [any_fail existsb]; rewrite F; reflexivity.
+  - destruct (mem m deny); cbn [any_fail existsb]; rewrite F; cbn [orb]; auto; try apply IH.
+Qed.
+Lemma any_fail_false fail ms : any_fail fail ms = false <-> (forall m, In m ms -> ~ In m fail).
+Proof.
+  unfold any_fail. split.
+  - intros H m Hm Hf. assert (X : existsb (fun m => mem m fail) ms = true).
+    { apply existsb_exists. exists m. split; auto. apply mem_In. exact Hf. }
+    congruence.
+  - intros H. destruct (existsb _ ms) eqn:E; auto. apply existsb_exists in E. destruct E as (m & Hm & Hf).
+    apply mem_In in Hf. exfalso. exact (H m Hm Hf).
+Qed.
+Lemma any_fail_nil ms : any_fail [] ms = false.
+Proof. induction ms; cbn; auto. Qed.
+
+Lemma hook_notify_ok fail au h e tok s s' :
+  hook_notify fail au h e tok s = Ok s' ->
+  has_auth au tok = true /\ mem tok (bound s) = true /\ any_fail fail (mods s h) = false /\
+  s' = notify_all (mods s h) e s.
+Proof.
+  unfold hook_notify, require_auth_from_bound_token. intros H.
+  destruct (has_auth au tok); cbn [guard bind] in H; [|discriminate].
+  destruct (mem tok (bound s)); cbn [guard bind] in H; [|discriminate].
+  rewrite notify_all_f_eq in H. destruct (any_fail fail (mods s h)); [discriminate|].
+  injection H as <-. auto.
+Qed.
+Lemma ask_bind_ok fail deny ms e s (r : cret) s' :
+  (do bs <- ask_all_f fail deny ms e s; Ok (Some (fst bs), snd bs)) = Ok (r, s') ->
+  any_fail fail (asked deny ms) = false /\ r = Some (fst (ask_all deny ms e s)) /\ s' = snd (ask_all deny ms e s).
+Proof.
+  rewrite ask_all_f_eq. destruct (any_fail fail (asked deny ms)); cbn [bind]; [discriminate|].
+  intros H. injection H as <- <-. auto.
+Qed.
+
 (* ------------------------------------------------------------------ *)
 (* steps                                                                *)
 Lemma cstep_ok cf s c s' r : cstep cf s c = (s', Ok r) <-> cexec cf c (cclear s) = Ok (r, s').
@@ -89,23 +136,28 @@ Theorem dispatch : forall (cf : ccfg) (s : cstate) (c : ccall) (s' : cstate) (r 
   | CTransferred f t a tok =>
       has_auth (cc_auths c) tok = true /\ In tok (bound s) /\
       mlog s' = map (fun m => (m, MOnTransfer f t a tok)) (mods s HTransferred) /\
-      mods s' = mods s /\ bound s' = bound s
+      mods s' = mods s /\ bound s' = bound s /\
+      (forall m, In m (mods s HTransferred) -> ~ In m (cc_fail c))
   | CCreated t a tok =>
       has_auth (cc_auths c) tok = true /\ In tok (bound s) /\
       mlog s' = map (fun m => (m, MOnCreated t a tok)) (mods s HCreated) /\
-      mods s' = mods s /\ bound s' = bound s
+      mods s' = mods s /\ bound s' = bound s /\
+      (forall m, In m (mods s HCreated) -> ~ In m (cc_fail c))
   | CDestroyed f a tok =>
       has_auth (cc_auths c) tok = true /\ In tok (bound s) /\
       mlog s' = map (fun m => (m, MOnDestroyed f a tok)) (mods s HDestroyed) /\
-      mods s' = mods s /\ bound s' = bound s
+      mods s' = mods s /\ bound s' = bound s /\
+      (forall m, In m (mods s HDestroyed) -> ~ In m (cc_fail c))
   | CCanTransfer f t a tok =>
       r = Some (forallb (fun m => negb (mem m (cc_deny c))) (mods s HCanTransfer)) /\
       mlog s' = map (fun m => (m, MCanTransfer f t a tok)) (asked (cc_deny c) (mods s HCanTransfer)) /\
-      mods s' = mods s /\ bound s' = bound s
+      mods s' = mods s /\ bound s' = bound s /\
+      (forall m, In m (asked (cc_deny c) (mods s HCanTransfer)) -> ~ In m (cc_fail c))
   | CCanCreate t a tok =>
       r = Some (forallb (fun m => negb (mem m (cc_deny c))) (mods s HCanCreate)) /\
       mlog s' = map (fun m => (m, MCanCreate t a tok)) (asked (cc_deny c) (mods s HCanCreate)) /\
-      mods s' = mods s /\ bound s' = bound s
+      mods s' = mods s /\ bound s' = bound s /\
+      (forall m, In m (asked (cc_deny c) (mods s HCanCreate)) -> ~ In m (cc_fail c))
   | CAddModule h m opr =>
       has_auth (cc_auths c) opr = true /\ ~ In m (mods s h) /\ Z.of_nat (length (mods s h)) < max_modules cf /\
       (forall h', mods s' h' = if hook_eqb h' h then mods s h ++ [m] else mods s h') /\
@@ -129,21 +181,24 @@ Proof.
   - res_inv H. subst. unfold remove_module_from in *. inv_all. facts. cbn in *. repeat split; auto.
   - res_inv H. subst. unfold bind_token in *. inv_all. facts. cbn in *. repeat split; auto.
   - res_inv H. subst. unfold unbind_token in *. inv_all. facts. cbn in *. repeat split; auto.
-  - res_inv H. subst. unfold hook_notify, require_auth_from_bound_token in *. inv_all. facts.
+  - apply bind_ok in H. destruct H as (x & E0 & H). injection H as <- <-.
+    apply hook_notify_ok in E0. destruct E0 as (A0 & B0 & F0 & ->). facts.
     destruct (notify_all_spec (mods (cclear s) HTransferred) (MOnTransfer from to amt tok) (cclear s)) as (A & B & C).
-    cbn in *. repeat split; auto.
-  - res_inv H. subst. unfold hook_notify, require_auth_from_bound_token in *. inv_all. facts.
+    pose proof (proj1 (any_fail_false _ _) F0) as F1. cbn in *. repeat split; auto.
+  - apply bind_ok in H. destruct H as (x & E0 & H). injection H as <- <-.
+    apply hook_notify_ok in E0. destruct E0 as (A0 & B0 & F0 & ->). facts.
     destruct (notify_all_spec (mods (cclear s) HCreated) (MOnCreated to amt tok) (cclear s)) as (A & B & C).
-    cbn in *. repeat split; auto.
-  - res_inv H. subst. unfold hook_notify, require_auth_from_bound_token in *. inv_all. facts.
+    pose proof (proj1 (any_fail_false _ _) F0) as F1. cbn in *. repeat split; auto.
+  - apply bind_ok in H. destruct H as (x & E0 & H). injection H as <- <-.
+    apply hook_notify_ok in E0. destruct E0 as (A0 & B0 & F0 & ->). facts.
     destruct (notify_all_spec (mods (cclear s) HDestroyed) (MOnDestroyed from amt tok) (cclear s)) as (A & B & C).
-    cbn in *. repeat split; auto.
-  - destruct (ask_all_spec (cc_deny c) (mods (cclear s) HCanTransfer) (MCanTransfer from to amt tok) (cclear s)) as (A & B & C & D).
-    destruct (ask_all _ _ _ _) as [b s1]. cbn [fst snd] in *. injection H as <- <-. cbn in *.
-    repeat split; auto. rewrite A. reflexivity.
-  - destruct (ask_all_spec (cc_deny c) (mods (cclear s) HCanCreate) (MCanCreate to amt tok) (cclear s)) as (A & B & C & D).
-    destruct (ask_all _ _ _ _) as [b s1]. cbn [fst snd] in *. injection H as <- <-. cbn in *.
-    repeat split; auto. rewrite A. reflexivity.
+    pose proof (proj1 (any_fail_false _ _) F0) as F1. cbn in *. repeat split; auto.
+  - apply ask_bind_ok in H. destruct H as (F0 & -> & ->).
+    destruct (ask_all_spec (cc_deny c) (mods (cclear s) HCanTransfer) (MCanTransfer from to amt tok) (cclear s)) as (A & B & C & D).
+    pose proof (proj1 (any_fail_false _ _) F0) as F1. cbn in *. repeat split; auto. rewrite A. reflexivity.
+  - apply ask_bind_ok in H. destruct H as (F0 & -> & ->).
+    destruct (ask_all_spec (cc_deny c) (mods (cclear s) HCanCreate) (MCanCreate to amt tok) (cclear s)) as (A & B & C & D).
+    pose proof (proj1 (any_fail_false _ _) F0) as F1. cbn in *. repeat split; auto. rewrite A. reflexivity.
   - injection H as <- <-. cbn. auto.
 Qed.
 
@@ -208,11 +263,11 @@ Proof.
     pose proof (length_remove_first m (mods s h)). lia.
   - destruct D as (_ & Hn & Hb & Hm & _). split; [rewrite Hm; exact HM|]. rewrite Hb. apply NoDup_snoc; auto.
   - destruct D as (_ & Hi & Hb & Hm & _). split; [rewrite Hm; exact HM|]. rewrite Hb. apply NoDup_remove_first; auto.
-  - destruct D as (_ & _ & _ & Hm & Hb). split; [rewrite Hm; exact HM|rewrite Hb; exact HB].
-  - destruct D as (_ & _ & _ & Hm & Hb). split; [rewrite Hm; exact HM|rewrite Hb; exact HB].
-  - destruct D as (_ & _ & _ & Hm & Hb). split; [rewrite Hm; exact HM|rewrite Hb; exact HB].
-  - destruct D as (_ & _ & Hm & Hb). split; [rewrite Hm; exact HM|rewrite Hb; exact HB].
-  - destruct D as (_ & _ & Hm & Hb). split; [rewrite Hm; exact HM|rewrite Hb; exact HB].
+  - destruct D as (_ & _ & _ & Hm & Hb & _). split; [rewrite Hm; exact HM|rewrite Hb; exact HB].
+  - destruct D as (_ & _ & _ & Hm & Hb & _). split; [rewrite Hm; exact HM|rewrite Hb; exact HB].
+  - destruct D as (_ & _ & _ & Hm & Hb & _). split; [rewrite Hm; exact HM|rewrite Hb; exact HB].
+  - destruct D as (_ & _ & Hm & Hb & _). split; [rewrite Hm; exact HM|rewrite Hb; exact HB].
+  - destruct D as (_ & _ & Hm & Hb & _). split; [rewrite Hm; exact HM|rewrite Hb; exact HB].
   - destruct D as (Hm & Hb & _). split; [rewrite Hm; exact HM|rewrite Hb; exact HB].
 Qed.
 
@@ -358,31 +413,36 @@ Proof.
     + unfold cobserve. cbn [co_log]. rewrite A6. reflexivity.
     + apply Hmods. intros h'. rewrite A4, Hmo. reflexivity.
     + apply Hbounds. intros t'. rewrite A3, (mem_remove_first _ _ _ HB). reflexivity.
-  - destruct D as (A1 & A2 & A3 & A4 & A5). btrue.
+  - destruct D as (A1 & A2 & A3 & A4 & A5 & AF). btrue.
     + exact A1.
     + destruct (bound_look toks prev tok) as [b|] eqn:L; auto. apply Hbl in L. subst b. apply mem_In. exact A2.
+    + rewrite Hmo. apply negb_true_iff. apply any_fail_false. exact AF.
     + unfold cobserve. cbn [co_log]. rewrite A3, Hmo. apply eqb_list_refl. apply eqb_entry_refl.
     + apply Hmods. intros h'. rewrite A4, Hmo. reflexivity.
     + apply Hbounds. intros t'. rewrite A5. reflexivity.
-  - destruct D as (A1 & A2 & A3 & A4 & A5). btrue.
+  - destruct D as (A1 & A2 & A3 & A4 & A5 & AF). btrue.
     + exact A1.
     + destruct (bound_look toks prev tok) as [b|] eqn:L; auto. apply Hbl in L. subst b. apply mem_In. exact A2.
+    + rewrite Hmo. apply negb_true_iff. apply any_fail_false. exact AF.
     + unfold cobserve. cbn [co_log]. rewrite A3, Hmo. apply eqb_list_refl. apply eqb_entry_refl.
     + apply Hmods. intros h'. rewrite A4, Hmo. reflexivity.
     + apply Hbounds. intros t'. rewrite A5. reflexivity.
-  - destruct D as (A1 & A2 & A3 & A4 & A5). btrue.
+  - destruct D as (A1 & A2 & A3 & A4 & A5 & AF). btrue.
     + exact A1.
     + destruct (bound_look toks prev tok) as [b|] eqn:L; auto. apply Hbl in L. subst b. apply mem_In. exact A2.
+    + rewrite Hmo. apply negb_true_iff. apply any_fail_false. exact AF.
     + unfold cobserve. cbn [co_log]. rewrite A3, Hmo. apply eqb_list_refl. apply eqb_entry_refl.
     + apply Hmods. intros h'. rewrite A4, Hmo. reflexivity.
     + apply Hbounds. intros t'. rewrite A5. reflexivity.
-  - destruct D as (A1 & A3 & A4 & A5). btrue.
+  - destruct D as (A1 & A3 & A4 & A5 & AF). btrue.
     + rewrite A1, Hmo. unfold all_approve. cbn. apply Bool.eqb_reflx.
+    + rewrite Hmo. apply negb_true_iff. apply any_fail_false. exact AF.
     + unfold cobserve. cbn [co_log]. rewrite A3, Hmo. apply eqb_list_refl. apply eqb_entry_refl.
     + apply Hmods. intros h'. rewrite A4, Hmo. reflexivity.
     + apply Hbounds. intros t'. rewrite A5. reflexivity.
-  - destruct D as (A1 & A3 & A4 & A5). btrue.
+  - destruct D as (A1 & A3 & A4 & A5 & AF). btrue.
     + rewrite A1, Hmo. unfold all_approve. cbn. apply Bool.eqb_reflx.
+    + rewrite Hmo. apply negb_true_iff. apply any_fail_false. exact AF.
     + unfold cobserve. cbn [co_log]. rewrite A3, Hmo. apply eqb_list_refl. apply eqb_entry_refl.
     + apply Hmods. intros h'. rewrite A4, Hmo. reflexivity.
     + apply Hbounds. intros t'. rewrite A5. reflexivity.
